@@ -41,7 +41,7 @@ def _inl(inls) -> str:
     return "".join(out)
 
 
-def body_html(blocks) -> str:
+def body_html(blocks, vmerge: bool = False) -> str:
     out = []
     for b in blocks:
         t = b[0]
@@ -50,7 +50,7 @@ def body_html(blocks) -> str:
         elif t == "h":
             out.append(f"<h{b[1]}>{_inl(b[2])}</h{b[1]}>")
         elif t == "ul":
-            out.append("<ul>" + "".join(f"<li>{body_html(item)}</li>" for item in b[1]) + "</ul>")
+            out.append("<ul>" + "".join(f"<li>{body_html(item, vmerge)}</li>" for item in b[1]) + "</ul>")
         elif t == "tbl":
             rows = b[1]
             ncols = max(len(r) for r in rows)
@@ -58,21 +58,34 @@ def body_html(blocks) -> str:
             # the covered part of a horizontal merge: HTML writes ONE cell with colspan="2" for both grid positions
             merge = ncols >= 3 or (len(rows) + ncols) % 2 == 0
 
-            def cells(row, tag):
+            def hcovered(row, j):
+                return merge and j > 0 and not row[j] and bool(row[j - 1])
+
+            def vcovered(i, j):
+                # (HTML / MHTML only) an empty cell below a non-empty one, not already part of a horizontal merge, is the
+                # covered part of a vertical merge: the cell above carries rowspan="2" and this row has NO element for it
+                return (vmerge and i > 0 and j < len(rows[i - 1]) and not rows[i][j] and bool(rows[i - 1][j])
+                        and not hcovered(rows[i], j) and not hcovered(rows[i - 1], j)
+                        and not (merge and j + 1 < len(rows[i - 1]) and not rows[i - 1][j + 1]))
+
+            def cells(i, tag):
+                row = rows[i]
                 out_ = []
                 for j, cell in enumerate(row):
-                    if merge and j > 0 and not cell and row[j - 1]:
+                    if hcovered(row, j) or vcovered(i, j):
                         continue
-                    span = ' colspan="2"' if merge and cell and j + 1 < len(row) and not row[j + 1] else ""
-                    out_.append(f"<{tag}{span}>{body_html(cell)}</{tag}>")
+                    span = ' colspan="2"' if merge and cell and j + 1 < len(row) and not row[j + 1] and not vcovered(i, j + 1) else ""
+                    if not span and i + 1 < len(rows) and j < len(rows[i + 1]) and vcovered(i + 1, j):
+                        span = ' rowspan="2"'
+                    out_.append(f"<{tag}{span}>{body_html(cell, vmerge)}</{tag}>")
                 return "".join(out_)
             if len(rows) % 2 == 0:
                 # HTML5-style table: unclosed <col> in a colgroup, header cells, thead / tbody sections
-                head = "<tr>" + cells(rows[0], "th") + "</tr>"
-                rest = "".join("<tr>" + cells(row, "td") + "</tr>" for row in rows[1:])
+                head = "<tr>" + cells(0, "th") + "</tr>"
+                rest = "".join("<tr>" + cells(i, "td") + "</tr>" for i in range(1, len(rows)))
                 out.append("<table><colgroup>" + "<col>" * ncols + f"</colgroup><thead>{head}</thead><tbody>{rest}</tbody></table>")
             else:
-                out.append("<table>" + "".join("<tr>" + cells(row, "td") + "</tr>" for row in rows) + "</table>")
+                out.append("<table>" + "".join("<tr>" + cells(i, "td") + "</tr>" for i in range(len(rows))) + "</table>")
         else:
             raise ValueError(t)
     return "\n".join(out)
@@ -86,7 +99,7 @@ def write_html(doc: dict, xhtml: bool = False) -> bytes:
     for k, name in (("author", "author"), ("description", "description"), ("keywords", "keywords")):
         if p.get(k) is not None:
             head += f'<meta name="{name}" content="{escape(p[k], {chr(34): "&quot;"})}"/>'
-    body = body_html(doc.get("blocks", []))
+    body = body_html(doc.get("blocks", []), vmerge=not xhtml)      # (EPUB chapters: horizontal merges only)
     if xhtml:
         return (f'<?xml version="1.0" encoding="utf-8"?><html xmlns="http://www.w3.org/1999/xhtml"><head>{head}</head>'
                 f"<body>{body}</body></html>").encode()
